@@ -7,12 +7,8 @@ import (
 	"go/token"
 	"go/types"
 
-	"rscheck/cfgq"
 	"rscheck/core"
 	"rscheck/driver"
-	"rscheck/flow"
-	"rscheck/lin"
-	"rscheck/pat"
 	"rscheck/rules/ring"
 )
 
@@ -28,7 +24,7 @@ var Def = driver.PropDef{
 		"R5 mem/file sibling skeleton (roffset/woffset arguments in parameter order, transfer window, wpos += n on write, no position change on read); " +
 		"R6 ring index clamp form (offset = position % size, maxlen only lowered to the ring bounds).",
 	NotDecided: "byte equality at an offset across wrap-arounds (value-level), arithmetic correctness of the bounds beyond the clamp-term comparison, all interleavings.",
-	Trusted:    []string{"go/parser, go/types, go/cfg (x/tools v0.29.0)", "sync.Mutex / sync.Cond semantics", "copy, os.File.ReadAt/WriteAt semantics"},
+	Trusted:    []string{"go/parser, go/types, go/cfg (x/tools v0.29.0)", "sync.Mutex / sync.Cond semantics", "copy, os.File.ReadAt/WriteAt semantics", "io count contract: an operation handed a byte slice first and returning (int, error) reports 0 <= n <= len(slice) (used to decide `n > 0` / `n != 0` alike)", "package-level error values (io.EOF, io.ErrClosedPipe, Err*) are never nil"},
 	Run:        Run,
 }
 
@@ -70,6 +66,15 @@ func (v *verdict) report(c *core.Ctx, rule, key string, def token.Pos, msg strin
 		w = v.bad.Witness(c)
 	}
 	c.Check(rule, key, pos, v.bad == nil, msg, w...)
+}
+
+// isSyncField: the read only fetches a mutex / condition variable (to unlock or signal).
+func isSyncField(e *ring.Event) bool {
+	if e.Field == nil {
+		return false
+	}
+	tp := core.NamedTypePath(e.Field.Type())
+	return tp == "sync.Mutex" || tp == "sync.RWMutex" || tp == "sync.Cond"
 }
 
 func isUnlock(e *ring.Event) bool {
@@ -271,45 +276,70 @@ func r2read(c *core.Ctx, fn *core.Fn) *ring.SymResult {
 	storeVar := fieldVar(c, "Backlog", "store")
 	var args, noProg, after, retZero, open verdict
 	sites := map[token.Pos]bool{}
-	twice := false
 	for _, t := range res.Traces {
-		s := t.First(func(e *ring.Event) bool { return ring.IsFieldCall(e, "store", "readSomeAt") })
-		if s != nil {
+		stores := t.Find(func(e *ring.Event) bool { return ring.IsFieldCall(e, "store", "readSomeAt") })
+		for _, s := range stores {
 			okArgs := len(res.Params) == 2 && len(s.Args) == 2 && s.Args[0].Key() == res.Params[0].Key() && s.Args[1].Key() == res.Params[1].Key()
 			args.add(t, s.Pos, okArgs)
 			open.add(t, s.Pos, t.FactsAt(s).NonNil(s.FieldNow(res.Recv, storeVar)))
 		}
+		// every Wait on the path: the store was tried since the previous wake-up and returned nothing
 		ws := t.Find(func(e *ring.Event) bool { return ring.IsCondOp(e, "rwait", "Wait") })
-		if len(ws) > 1 {
-			twice = true
-		}
+		prev := -1
 		for _, w := range ws {
 			sites[w.Pos] = true
-			before := s != nil && s.Index < w.Index
-			after.add(t, w.Pos, before)
-			noProg.add(t, w.Pos, before && ring.NoProgress(t.FactsAt(w), s))
-			okRet := t.Normal() && len(t.Results) == 2 && t.Facts.IsZero(t.Results[0]) && t.Facts.IsNil(t.Results[1])
-			for _, e := range t.Events[w.Index+1:] {
-				switch e.Kind {
-				case ring.EvStore:
-					okRet = false
-				case ring.EvCall:
-					if !e.Deferred && !isUnlock(e) {
-						okRet = false
-					}
+			var s *ring.Event
+			for _, x := range stores {
+				if x.Index < w.Index {
+					s = x
 				}
 			}
-			if t.Exit == ring.ExitReturn || t.Exit == ring.ExitPanic {
-				retZero.add(t, w.Pos, okRet)
+			before := s != nil && s.Index > prev
+			after.add(t, w.Pos, before)
+			noProg.add(t, w.Pos, before && ring.NoProgress(t.FactsAt(w), s))
+			prev = w.Index
+		}
+		if len(ws) == 0 {
+			continue
+		}
+		// after the last Wait: the state is examined again, or (0, nil) goes back to ReadAt
+		w := ws[len(ws)-1]
+		again := false
+		for _, x := range stores {
+			if x.Index > w.Index {
+				again = true
 			}
 		}
+		if again || t.Exit == ring.ExitCut {
+			continue
+		}
+		// nothing but the return of (0, nil) - or the shared state is read again
+		// (then the other rules, which look at the field versions current at each
+		// step, judge what follows: nothing read before the Wait counts any more)
+		okRet := t.Normal() && len(t.Results) == 2 && t.Facts.IsZero(t.Results[0]) && t.Facts.IsNil(t.Results[1])
+		reexamined := false
+		for _, e := range t.Events[w.Index+1:] {
+			switch e.Kind {
+			case ring.EvRead:
+				if e.Base != nil && res.Recv != nil && e.Base.Key() == res.Recv.Key() && !isSyncField(e) {
+					reexamined = true
+				}
+			case ring.EvStore:
+				okRet = false
+			case ring.EvCall:
+				if !e.Deferred && !isUnlock(e) {
+					okRet = false
+				}
+			}
+		}
+		retZero.add(t, w.Pos, okRet || reexamined)
 	}
 	if !args.seen {
 		c.Undecidedf("R2.wake", "readSomeAt/store-call", fn.Decl.Pos(), "no path of readSomeAt calls bl.store.readSomeAt")
 		return res
 	}
 	args.report(c, "R2.wake", "readSomeAt/args", fn.Decl.Pos(), "readSomeAt hands its own buffer and offset to the store unchanged")
-	c.Check("R2.wake", "readSomeAt/one-wait", fn.Decl.Pos(), len(sites) == 1 && !twice,
+	c.Check("R2.wake", "readSomeAt/one-wait", fn.Decl.Pos(), len(sites) == 1,
 		fmt.Sprintf("readSomeAt must contain exactly one rwait.Wait() (found %d): a read at the write position has to sleep until the writer broadcasts", len(sites)))
 	if noProg.seen {
 		noProg.report(c, "R2.wake", "readSomeAt/wait-only-without-progress", fn.Decl.Pos(), "Wait must be reachable only when the store returned no bytes and no error (o equals the write position)")
@@ -317,7 +347,14 @@ func r2read(c *core.Ctx, fn *core.Fn) *ring.SymResult {
 		retZero.report(c, "R2.wake", "readSomeAt/return-after-wait", fn.Decl.Pos(), "after Wait the function returns (0, nil) so that ReadAt re-examines the state (including a close) under the lock")
 	}
 	open.report(c, "R2.wake", "readSomeAt/store-open-before-read", fn.Decl.Pos(), "the store is consulted only after it was found non-nil")
-	// callers retry after a wake-up
+	// callers retry after a wake-up (needed only if readSomeAt can come back
+	// empty-handed for a non-empty buffer, i.e. does not re-examine the state itself)
+	if !ring.MayReturnIdle(res) {
+		for _, f := range ring.CallsIn(c, pkg).Callers[fn.Obj.Origin()] {
+			c.Okf("R2.wake", f.Name()+"/loops", f.Pos(), "readSomeAt never returns (0, nil) for a non-empty buffer: it re-examines the state itself after a wake-up")
+		}
+		return res
+	}
 	vs := ring.RetriesOnWake(c, pkg, fn.Obj)
 	for _, v := range vs {
 		key := v.Fn.Decl.Name.Name + "/loops"
@@ -390,66 +427,35 @@ func stores(c *core.Ctx, named *types.Named) {
 	}
 	// readSomeAt
 	if fn := c.Func(pkg, tn, "readSomeAt"); fn != nil {
-		info := fn.Pkg.TypesInfo
-		body := fn.Decl.Body
-		var params []*ast.Ident
-		for _, f := range fn.Decl.Type.Params.List {
-			params = append(params, f.Names...)
-		}
-		if len(params) != 2 {
-			c.Undecidedf("R5.sibling", tn+".readSomeAt/params", fn.Decl.Pos(), "expected (b, rpos)")
-			return
-		}
-		res := ring.Transfer(c, fn, ring.TransferSpec{Rule: "R5.sibling", Key: tn + ".readSomeAt", OffsetFn: "roffset",
-			Args: []string{"len(_b)", "_p.size", "_" + params[1].Name, "_p.wpos"}, ArgsDesc: "roffset(len(b), p.size, rpos, p.wpos)", Read: true,
-			ArgsKey: "roffset-args", WindowKey: "transfer-window",
-			WindowMsg: "the bytes returned are exactly [offset, offset+maxlen) of the backing store, i.e. the bytes written at rpos onward"})
+		sres := ring.RunSym(c, fn, &ring.Sym{Opaque: ring.OpaqueOffsets})
+		av, awhy, wv, wwhy := ring.TransferOnTraces(sres, ring.XferSpec{OffsetFn: "roffset", Read: true, Args: []string{"len:0", "field:size", "param:1", "field:wpos"}}, backing)
+		tri("R5.sibling", tn+".readSomeAt/roffset-args", fn.Decl.Pos(), av, awhy, "calls roffset(len(b), p.size, rpos, p.wpos) with the arguments in parameter order")
+		tri("R5.sibling", tn+".readSomeAt/transfer-window", fn.Decl.Pos(), wv, wwhy, "the bytes returned are exactly [offset, offset+maxlen) of the backing store, i.e. the bytes written at rpos onward")
 		// no position write
-		c.Check("R5.sibling", tn+".readSomeAt/no-position-write", fn.Decl.Pos(), len(ring.FrozenField(c, fn, "wpos")) == 0, "a read never moves the write position")
-		// R3 validity before data
-		if res != nil && res.Transfer != nil && res.Offset != nil {
-			recv := res.Binds["_p"]
-			rpos := ast.Expr(params[1])
-			sel := func(field string) ast.Expr {
-				var hit ast.Expr
-				core.Inspect(body, func(n ast.Node) bool {
-					if s, ok := n.(*ast.SelectorExpr); ok && hit == nil && s.Sel.Name == field && pat.Same(info, s.X, recv) {
-						hit = s
-					}
-					return true
-				})
-				return hit
-			}
-			wpos, size := sel("wpos"), sel("size")
-			if wpos == nil || size == nil {
-				c.Undecidedf("R3.valid", tn+".readSomeAt/fields", fn.Decl.Pos(), "readSomeAt does not mention p.wpos and p.size")
-			} else {
-				notBeyond := lin.Combo(info, 0, 1, rpos, -1, wpos)                // rpos - wpos <= 0
-				notOverwritten := lin.Combo(info, 0, 1, wpos, -1, rpos, -1, size) // wpos - rpos - size <= 0
+		nv, nwhy := ring.NeverStores(sres, "wpos")
+		tri("R5.sibling", tn+".readSomeAt/no-position-write", fn.Decl.Pos(), nv, nwhy, "a read never moves the write position")
+		// R3 validity before data: wherever roffset is called or bytes are read, the
+		// facts of the path imply rpos <= wpos and wpos <= rpos + size
+		wpos := ring.FieldAtEntry(sres.Recv, ring.FieldOf(sres.Recv, "wpos"))
+		size := ring.FieldAtEntry(sres.Recv, ring.FieldOf(sres.Recv, "size"))
+		if wpos == nil || size == nil || len(sres.Params) != 2 {
+			c.Undecidedf("R3.valid", tn+".readSomeAt/fields", fn.Decl.Pos(), "readSomeAt does not have fields wpos and size")
+		} else {
+			rpos := sres.Params[1]
+			for _, fact := range []struct {
+				key  string
+				want *ring.Val
+			}{{"beyond-write-position", ring.VCmp(token.LEQ, rpos, wpos)}, {"overwritten", ring.VCmp(token.LEQ, wpos, ring.VAdd(rpos, size))}} {
+				offV, xferV := ring.HoldsBefore(sres, "roffset", fact.want)
 				for _, p := range []struct {
 					what string
-					site flow.Site
-				}{{"storage read", *res.Transfer}, {"roffset call", res.Offset.Site}} {
-					for _, fact := range []struct {
-						key  string
-						form lin.Form
-					}{{"beyond-write-position", notBeyond}, {"overwritten", notOverwritten}} {
-						fact := fact
-						okv := res.E.Under(p.site, func(f cfgq.Fact) bool {
-							cmp, ok := lin.CmpOf(info, f.Expr, f.Val)
-							return ok && cmp.Is(fact.form, token.LEQ)
-						})
-						if !okv {
-							// the same question on the traces (validity computed into locals, compared in a helper ...)
-							okv = validOnTraces(c, fn, fact.key)
-						}
-						c.Check("R3.valid", tn+".readSomeAt/"+fact.key+"/"+p.what, p.site.At.Node().Pos(), okv,
-							"an offset that is "+fact.key+" must be rejected before any byte is read: otherwise other bytes than those written at that offset are returned")
-					}
+					v    int
+				}{{"storage read", xferV}, {"roffset call", offV}} {
+					msg := "an offset that is " + fact.key + " must be rejected before any byte is read: otherwise other bytes than those written at that offset are returned"
+					tri("R3.valid", tn+".readSomeAt/"+fact.key+"/"+p.what, fn.Decl.Pos(), p.v, "the facts established on a path to the "+p.what+" do not imply it", msg)
 				}
 			}
 		}
-		sres := ring.RunSym(c, fn, &ring.Sym{Opaque: ring.OpaqueOffsets})
 		// the rejection reports ErrInvalidOffset
 		if ok, why := sres.Usable(); !ok {
 			c.Undecidedf("R3.valid", tn+".readSomeAt/invalid-offset-error", fn.Decl.Pos(), "%s", why)
@@ -474,11 +480,10 @@ func stores(c *core.Ctx, named *types.Named) {
 		}
 	}
 	if fn := c.Func(pkg, tn, "writeSome"); fn != nil {
-		ring.Transfer(c, fn, ring.TransferSpec{Rule: "R5.sibling", Key: tn + ".writeSome", OffsetFn: "woffset",
-			Args: []string{"len(_b)", "_p.size", "_p.wpos"}, ArgsDesc: "woffset(len(b), p.size, p.wpos)", Read: false,
-			ArgsKey: "woffset-args", WindowKey: "transfer-window",
-			WindowMsg: "the bytes go to exactly [offset, offset+maxlen) of the backing store from the front of the caller's buffer"})
 		sres := ring.RunSym(c, fn, &ring.Sym{Opaque: ring.OpaqueOffsets})
+		xav, xawhy, wv, wwhy := ring.TransferOnTraces(sres, ring.XferSpec{OffsetFn: "woffset", Read: false, Args: []string{"len:0", "field:size", "field:wpos"}}, backing)
+		tri("R5.sibling", tn+".writeSome/woffset-args", fn.Decl.Pos(), xav, xawhy, "calls woffset(len(b), p.size, p.wpos) with the arguments in parameter order")
+		tri("R5.sibling", tn+".writeSome/transfer-window", fn.Decl.Pos(), wv, wwhy, "the bytes go to exactly [offset, offset+maxlen) of the backing store from the front of the caller's buffer")
 		av, awhy := ring.WriteEndState(sres, "wpos")
 		tri("R5.sibling", tn+".writeSome/advance-wpos", fn.Decl.Pos(), av, awhy, "wpos advances by exactly the number of bytes stored (absolute offsets stay aligned with ring positions)")
 		v, why := ring.ClosedGuard(sres, backing, "backlog", "ErrClosedBacklog")
@@ -492,40 +497,6 @@ func stores(c *core.Ctx, named *types.Named) {
 		v, why := ring.DropsBacking(sres, backing)
 		tri("R5.sibling", tn+".close/drops-store", fn.Decl.Pos(), v, why, "close drops the backing store so that readers woken by the close fail with ErrClosedBacklog")
 	}
-}
-
-// validOnTraces answers R3 on the traces of readSomeAt: wherever bytes are
-// moved, the facts of the path imply rpos <= wpos ("beyond-write-position") /
-// wpos <= rpos + size ("overwritten").
-func validOnTraces(c *core.Ctx, fn *core.Fn, which string) bool {
-	res := ring.RunSym(c, fn, &ring.Sym{})
-	if ok, _ := res.Usable(); !ok || len(res.Params) != 2 || res.Recv == nil {
-		return false
-	}
-	wpos := ring.FieldAtEntry(res.Recv, ring.FieldOf(res.Recv, "wpos"))
-	size := ring.FieldAtEntry(res.Recv, ring.FieldOf(res.Recv, "size"))
-	if wpos == nil || size == nil {
-		return false
-	}
-	rpos := res.Params[1]
-	var want *ring.Val
-	if which == "beyond-write-position" {
-		want = ring.VCmp(token.LEQ, rpos, wpos)
-	} else {
-		want = ring.VCmp(token.LEQ, wpos, ring.VAdd(rpos, size))
-	}
-	seen := false
-	for _, t := range res.Traces {
-		for _, e := range t.Events {
-			if ring.IsTransfer(e) {
-				seen = true
-				if !t.FactsAt(e).Holds(want) {
-					return false
-				}
-			}
-		}
-	}
-	return seen
 }
 
 // dataRange checks R4 for one store on the traces of the method (helpers
@@ -666,6 +637,12 @@ func isValid(c *core.Ctx, fn, dr *core.Fn) {
 			}
 		}
 	}
+	if (!okFormula || !okClosed) && unsignedSub(fn) {
+		// the engine's integer reasoning ignores wrap-around; with an unsigned
+		// subtraction in the predicate (`seek-rpos <= wpos-rpos`) its answer is not reliable
+		c.Undecidedf("R4.range", "Reader.IsValid/formula", fn.Decl.Pos(), "IsValid subtracts unsigned values; the comparison may rely on wrap-around, which the path engine does not model")
+		return
+	}
 	switch {
 	case !okFormula:
 		c.Failf("R4.range", "Reader.IsValid/formula", fn.Decl.Pos(), "a reader is valid exactly while rpos <= seek <= wpos of the current data range; IsValid answers differently for %s (a reader exactly at a bound is judged wrongly)", wrongCase)
@@ -675,6 +652,23 @@ func isValid(c *core.Ctx, fn, dr *core.Fn) {
 		c.Check("R4.range", "Reader.IsValid/formula", fn.Decl.Pos(), okFormula, "a reader is valid exactly while rpos <= seek <= wpos of the current data range")
 		c.Check("R4.range", "Reader.IsValid/closed-is-invalid", fn.Decl.Pos(), okClosed, "a closed backlog makes every reader invalid")
 	}
+}
+
+// unsignedSub: the body (helpers not followed) subtracts unsigned operands.
+func unsignedSub(fn *core.Fn) bool {
+	info := fn.Pkg.TypesInfo
+	found := false
+	ast.Inspect(fn.Decl.Body, func(n ast.Node) bool {
+		if be, ok := n.(*ast.BinaryExpr); ok && be.Op == token.SUB {
+			if t := info.TypeOf(be); t != nil {
+				if b, ok := t.Underlying().(*types.Basic); ok && b.Info()&types.IsUnsigned != 0 {
+					found = true
+				}
+			}
+		}
+		return true
+	})
+	return found
 }
 
 // ringRecv returns the receiver leaf of the function being walked.
